@@ -123,5 +123,33 @@ theorem tc_line_two_quad (f : (Fin N → ℝ) → ℝ) (x v : Fin N → ℝ) (hf
 theorem hessAt_symm (f : (Fin N → ℝ) → ℝ) (x : Fin N → ℝ) (hf : ContDiffAt ℝ 2 f x) (n m : Fin N) :
     hessAt f x n m = hessAt f x m n := snd_symm f x hf _ _
 
+/-- the gradient entry `y ↦ ∂F/∂x_j (y)` is differentiable at `x` with derivative `v ↦ D²F(x)(v, e_j)` -/
+theorem gradAt_hasFDerivAt (f : (Fin N → ℝ) → ℝ) (x : Fin N → ℝ) (hf : ContDiffAt ℝ 2 f x) (j : Fin N) :
+    HasFDerivAt (fun y => gradAt f y j)
+      ((ContinuousLinearMap.apply ℝ ℝ (Pi.single j (1:ℝ) : Fin N → ℝ)).comp (fderiv ℝ (fderiv ℝ f) x)) x := by
+  have hdf : DifferentiableAt ℝ (fderiv ℝ f) x := by
+    have : ContDiffAt ℝ 1 (fderiv ℝ f) x := hf.fderiv_right (by norm_num)
+    exact this.differentiableAt (by norm_num)
+  exact (ContinuousLinearMap.apply ℝ ℝ (Pi.single j (1:ℝ) : Fin N → ℝ)).hasFDerivAt.comp x hdf.hasFDerivAt
+
+/-- **first Taylor coefficient of the gradient along a line is the Hessian-vector product**:
+`[t¹] ∂F/∂x_j (x + t v) = Σ_i ∂²F/∂x_j∂x_i · v_i` — what `hessian`, `hess_vec`, `vec_hess` read from `xbar.data[1]` -/
+theorem tc_grad_line_one (f : (Fin N → ℝ) → ℝ) (x v : Fin N → ℝ) (hf : ContDiffAt ℝ 2 f x) (j : Fin N) :
+    tc (fun t => gradAt f (line x v t) j) 1 = ∑ i, hessAt f x j i * v i := by
+  have hd := gradAt_hasFDerivAt f x hf j
+  rw [tc_line_one (fun y => gradAt f y j) x v hd.differentiableAt, hd.fderiv]
+  simp only [ContinuousLinearMap.comp_apply, ContinuousLinearMap.apply_apply]
+  rw [snd_eq_bil]
+  unfold bil
+  have : ∀ i : Fin N, ∑ k, v i * hessAt f x i k * (Pi.single j (1:ℝ) : Fin N → ℝ) k = v i * hessAt f x i j := by
+    intro i
+    rw [Finset.sum_eq_single j]
+    · simp
+    · intro b _ hb; simp [Pi.single_apply, hb]
+    · intro h; exact absurd (Finset.mem_univ j) h
+  rw [Finset.sum_congr rfl fun i _ => this i]
+  refine Finset.sum_congr rfl fun i _ => ?_
+  rw [hessAt_symm f x hf j i]; ring
+
 end
 end AV
